@@ -799,7 +799,7 @@ def run(ctx):
             # numeric tie inside Coq (sample)
             n3 = sum(1 for cc, _ in dist_ref if cc["n"] >= 3)
             stats["results_n%d" % n] = stats.get("results_n%d" % n, 0) + 1
-            stride = {1: 6, 2: 3}.get(n, 1) if quick else 1
+            stride = {1: 6, 2: 3}.get(n, 1) if quick else {1: 3, 2: 2}.get(n, 1)
             sel = (n <= 2 and stats["results_n%d" % n] % stride == 0) or (n == 3 and ep == "multi" and (n3 < 4 or not quick)) \
                 or (n == 3 and ep == "graph:all" and n3 < (5 if quick else 14))
             if err <= TOL and sel:
@@ -826,6 +826,9 @@ def run(ctx):
         key = f"coq-distance:{r['ep']}:{c['kind'].split(':')[0]}:{case_hash(c)}"
         ctx.violation(key, {"n": c["n"], "kind": c["kind"], "ep": r["ep"], "U": ser_c(c["Unp"]), "ops": r["ops"], "stream": c["stream"], "delta": c["delta"]},
                       what=f"{r['ep']}: interval evaluation inside Coq cannot confirm |circuit - U| <= 1e-7")
+    t2b = time.time()
+    tmpl = tmpl_future.result()          # join part A before generating further obligations (ctx counters are not thread-safe)
+    tpool.shutdown()
     # the cos/sin enclosures themselves (computed with mpmath) are re-proved inside Coq with the Interval tactic (sample)
     ntrig = 80 if quick else 800
     step = max(1, len(TRIG) // ntrig)
@@ -836,8 +839,6 @@ def run(ctx):
     for name, detail in tfail:
         ctx.broken_obligation("coq", "trig-enclosure:" + name, detail[-800:])
     t3 = time.time()
-    tmpl = tmpl_future.result()
-    tpool.shutdown()
     ctx.coverage.update({
         "evaluations": stats["results"], "distinct_nontrivial": len({(case_hash(c), r["ep"]) for c, r in skel_ref if len(r["ops"]) > 1}),
         "rule": "one evaluation = one (unitary, entry point) synthesis; non-trivial = circuit with more than one operator",
@@ -845,7 +846,7 @@ def run(ctx):
                                "kinds": {k: sum(1 for c in cases if c["kind"].split(":")[0] == k) for k in sorted({c["kind"].split(":")[0] for c in cases})}},
         "two_qubit_entangler_histogram": stats["cnot_hist"], "max_error_outside_near_stream": {k: float("%.3g" % v) for k, v in stats["max_err"].items()},
         "raised": stats["raised"], "finding_hits": stats["findings"], "coq_skeleton_cases": len(skel_terms), "coq_distance_cases": len(dist_terms), "trig_enclosures_total": len(TRIG), "trig_enclosures_reproved_with_interval": len(trig) - len(tfail),
-        "templates": tmpl, "timing_s": {"impl": round(t_impl, 1), "coq_skel": round(t2 - t1, 1), "coq_dist": round(t3 - t2, 1), "templates": round(time.time() - t3, 1)},
+        "templates": tmpl, "timing_s": {"impl": round(t_impl, 1), "coq_skel": round(t2 - t1, 1), "coq_dist": round(t2b - t2, 1), "trig": round(t3 - t2b, 1)},
     })
     for c, r in dist_ref[:2]:
         ctx.sample({"n": c["n"], "kind": c["kind"], "ep": r["ep"], "ops": [o["name"] for o in r["ops"]], "err": r.get("err")})
